@@ -16,35 +16,32 @@ Padding Object). -/
 /-- the callback is offered `len(old Header Object) − needed` as `info.padding` and the number of
 bytes behind the Header Object as `info.size`; the saved header ends with one Padding Object whose
 payload is exactly the callback's answer in zero bytes (a negative answer counts as 0:
-`b"\x00" * padding`), and there is no other padding left in the header -/
+`b"\x00" * padding`), and there is no other padding left in the header (the other children are the
+kept ones, the File Size field of the File Properties Object set to the new file length) -/
 theorem asf_padding_obeyed (L : Asf.Layout) (h : L.OK) (tags : List Asf.Tag) (d : Asf.Dist)
-    (hd : Asf.distribute tags = .ok d) (P : Asf.Payloads) (hP : Asf.Renders d P) (f : Int → Nat → Int)
-    (hfit : Asf.ExtFits (Asf.keptTop P L.top)) (p : Nat)
-    (hp : (f ((L.headerLen : Int) - (Asf.neededLen P L.top : Nat)) L.rest.length).toNat = p) :
+    (hd : Asf.distribute tags = .ok d) (P : Asf.Payloads) (hP : Asf.Renders d P) (f : Int → Nat → Int) (p : Nat)
+    (hp : (f ((L.headerLen : Int) - (Asf.neededLen P L.top : Nat)) L.rest.length).toNat = p) (hf : L.Fits P p) :
     Asf.save L.render tags (.callback f) = .ok (L.after P p).render ∧
-      (L.after P p).top = Asf.keptTop P L.top ++ [Asf.Item.pad (zeros p)] ∧
-      (∀ i ∈ Asf.keptTop P L.top, i.isPad = false) ∧
+      (L.after P p).top = Asf.patchFP (L.after P p).render.length (Asf.keptTop P L.top) ++ [Asf.Item.pad (zeros p)] ∧
+      (∀ i ∈ Asf.patchFP (L.after P p).render.length (Asf.keptTop P L.top), i.isPad = false) ∧
       (L.after P p).headerLen = Asf.neededLen P L.top + p := by
-  refine ⟨?_, rfl, ?_, L.after_headerLen P p⟩
-  · have := (Asf.save_layout L h tags d hd P hP (.callback f) hfit).2
-    have e : Asf.newPadding L P (.callback f) = p := hp
+  have e : Asf.newPadding L P (.callback f) = p := hp
+  refine ⟨?_, ?_, Asf.kept_no_pad _ P L.top, L.after_headerLen h P p⟩
+  · have := (Asf.save_layout L h tags d hd P hP (.callback f) (by rw [e]; exact hf)).2
     rw [e] at this; exact this
-  · intro i hi
-    simp only [Asf.keptTop, List.mem_map, List.mem_filter] at hi
-    obtain ⟨j, ⟨_, hj⟩, rfl⟩ := hi
-    simpa only [Asf.Item.isPad, Asf.Item.re_guid, Bool.not_eq_true'] using hj
+  · rw [Asf.after_render_length L h]; exact Asf.after_top L P p
 
 /-- returning the offered padding (when it is not negative) leaves the file size and the offset of
 every byte behind the header unchanged: the new Header Object is exactly as long as the old one -/
 theorem asf_keep_is_inplace (L : Asf.Layout) (h : L.OK) (tags : List Asf.Tag) (d : Asf.Dist)
     (hd : Asf.distribute tags = .ok d) (P : Asf.Payloads) (hP : Asf.Renders d P) (f : Int → Nat → Int)
-    (hfit : Asf.ExtFits (Asf.keptTop P L.top)) (hroom : Asf.neededLen P L.top ≤ L.headerLen)
+    (hf : L.Fits P (L.headerLen - Asf.neededLen P L.top)) (hroom : Asf.neededLen P L.top ≤ L.headerLen)
     (hkeep : f ((L.headerLen : Int) - (Asf.neededLen P L.top : Nat)) L.rest.length = (L.headerLen : Int) - (Asf.neededLen P L.top : Nat)) :
     ∃ L' : Asf.Layout, Asf.save L.render tags (.callback f) = .ok L'.render ∧ L'.headerLen = L.headerLen ∧
       L'.render.length = L.render.length ∧ L'.render.drop L.headerLen = L.rest := by
   have hp : (f ((L.headerLen : Int) - (Asf.neededLen P L.top : Nat)) L.rest.length).toNat = L.headerLen - Asf.neededLen P L.top := by
     rw [hkeep]; omega
-  obtain ⟨hs, _, _, hl⟩ := asf_padding_obeyed L h tags d hd P hP f hfit _ hp
+  obtain ⟨hs, _, _, hl⟩ := asf_padding_obeyed L h tags d hd P hP f _ hp hf
   have hl' : (L.after P (L.headerLen - Asf.neededLen P L.top)).headerLen = L.headerLen := by rw [hl]; omega
   refine ⟨_, hs, hl', ?_, ?_⟩
   · have hr : (L.after P (L.headerLen - Asf.neededLen P L.top)).rest = L.rest := rfl
@@ -56,18 +53,26 @@ theorem asf_keep_is_inplace (L : Asf.Layout) (h : L.OK) (tags : List Asf.Tag) (d
 data behind the header of free room is reused in place -/
 theorem asf_default_reuses_padding (L : Asf.Layout) (h : L.OK) (tags : List Asf.Tag) (d : Asf.Dist)
     (hd : Asf.distribute tags = .ok d) (P : Asf.Payloads) (hP : Asf.Renders d P)
-    (hfit : Asf.ExtFits (Asf.keptTop P L.top)) (hroom : Asf.neededLen P L.top ≤ L.headerLen)
+    (hf : L.Fits P (L.headerLen - Asf.neededLen P L.top)) (hroom : Asf.neededLen P L.top ≤ L.headerLen)
     (hsmall : L.headerLen - Asf.neededLen P L.top ≤ 10240 + L.rest.length / 100) :
     ∃ L' : Asf.Layout, Asf.save L.render tags .default = .ok L'.render ∧ L'.headerLen = L.headerLen ∧
       L'.render.length = L.render.length := by
   have hk : Generated.defaultPadding ((L.headerLen : Int) - (Asf.neededLen P L.top : Nat)) L.rest.length =
       (L.headerLen : Int) - (Asf.neededLen P L.top : Nat) := defaultPadding_keeps _ _ (by omega) (by omega)
-  obtain ⟨L', h1, h2, h3, _⟩ := asf_keep_is_inplace L h tags d hd P hP Generated.defaultPadding hfit hroom hk
+  obtain ⟨L', h1, h2, h3, _⟩ := asf_keep_is_inplace L h tags d hd P hP Generated.defaultPadding hf hroom hk
   exact ⟨L', h1, h2, h3⟩
 
-/-- the hypotheses are satisfiable -/
+/-- the hypotheses are satisfiable (the second layout has 600 more bytes of padding: room to keep) -/
 example : Asf.exLayout.OK ∧ Asf.distribute Asf.exTags = .ok Asf.exDist ∧ Asf.Renders Asf.exDist Asf.exPayloads ∧
-    Asf.ExtFits (Asf.keptTop Asf.exPayloads Asf.exLayout.top) := by
+    Asf.exLayout.Fits Asf.exPayloads (Asf.newPadding Asf.exLayout Asf.exPayloads .default) := by
   refine ⟨by decide +kernel, by decide +kernel, by decide +kernel, by decide +kernel⟩
+
+example : (Asf.Layout.mk (Asf.exLayout.top ++ [Asf.Item.pad (zeros 600)]) Asf.exLayout.rest).OK ∧
+    (Asf.Layout.mk (Asf.exLayout.top ++ [Asf.Item.pad (zeros 600)]) Asf.exLayout.rest).Fits Asf.exPayloads
+      ((Asf.Layout.mk (Asf.exLayout.top ++ [Asf.Item.pad (zeros 600)]) Asf.exLayout.rest).headerLen -
+        Asf.neededLen Asf.exPayloads (Asf.exLayout.top ++ [Asf.Item.pad (zeros 600)])) ∧
+    Asf.neededLen Asf.exPayloads (Asf.exLayout.top ++ [Asf.Item.pad (zeros 600)]) ≤
+      (Asf.Layout.mk (Asf.exLayout.top ++ [Asf.Item.pad (zeros 600)]) Asf.exLayout.rest).headerLen := by
+  refine ⟨by decide +kernel, by decide +kernel, by decide +kernel⟩
 
 end Mutagen.C09
